@@ -114,8 +114,49 @@ func emitConst(a *wb.Asm, t rs.VT, v rs.V) {
 
 // opFunc builds the body of the function under test for one form; consts supplies the constant operands.
 func opFunc(op *rs.Op, form Form, consts Tuple) (params []wb.ValType, body []byte) {
+	params, _, body = opFuncL(op, form, consts)
+	return
+}
+
+// opFuncL additionally returns the locals the body needs. Operand sources: P parameter, C constant,
+// M load, B `x & x`, T parameter passed through local.tee, S the SAME value as operand 0, U the same
+// value as operand 1 (re-read of the parameter / of the tee'd local, or the same constant again).
+func opFuncL(op *rs.Op, form Form, consts Tuple) (params, locals []wb.ValType, body []byte) {
 	a := &wb.Asm{}
 	a.Raw(op.Pre...)
+	nparams := 0
+	for k := range op.In {
+		switch form[k] {
+		case 'P', 'B', 'T', 'M':
+			nparams++
+		}
+	}
+	referenced := func(k int) bool {
+		for j := k + 1; j < len(op.In); j++ {
+			if (form[j] == 'S' && k == 0) || (form[j] == 'U' && k == 1) {
+				return true
+			}
+		}
+		return false
+	}
+	var paramIdx, localIdx [3]uint32
+	tee := func(k int, t rs.VT) {
+		localIdx[k] = uint32(nparams + len(locals))
+		locals = append(locals, wbType(t))
+		a.LocalTee(localIdx[k])
+	}
+	dup := func(r int) {
+		switch form[r] {
+		case 'P':
+			a.LocalGet(paramIdx[r])
+		case 'T', 'M':
+			a.LocalGet(localIdx[r])
+		case 'C':
+			emitConst(a, op.In[r], consts[r])
+		default:
+			panic("opFunc: S/U refers to an operand that cannot be duplicated")
+		}
+	}
 	for k, t := range op.In {
 		switch form[k] {
 		case 'B': // the operand is the result of an `and` instruction (x & x): backends fuse and+compare+branch
@@ -127,18 +168,30 @@ func opFunc(op *rs.Op, form Form, consts Tuple) (params []wb.ValType, body []byt
 			}
 			params = append(params, wbType(t))
 		case 'P':
+			paramIdx[k] = uint32(len(params))
+			a.LocalGet(paramIdx[k])
+			params = append(params, wbType(t))
+		case 'T':
 			a.LocalGet(uint32(len(params)))
 			params = append(params, wbType(t))
+			tee(k, t)
 		case 'M':
 			a.LocalGet(uint32(len(params)))
 			emitLoad(a, t, 0)
 			params = append(params, wb.I32)
+			if referenced(k) {
+				tee(k, t)
+			}
 		case 'C':
 			emitConst(a, t, consts[k])
+		case 'S':
+			dup(0)
+		case 'U':
+			dup(1)
 		}
 	}
 	a.Raw(op.Enc...)
-	return params, a.B
+	return params, locals, a.B
 }
 
 // builtModule is a module for one operator: per form a driver "d_<form>"(n) that evaluates
@@ -161,7 +214,7 @@ func constKey(op *rs.Op, form Form, t Tuple) string {
 	return string(b)
 }
 
-func buildModule(op *rs.Op, forms []Form, red []Tuple) *builtModule {
+func buildModule(op *rs.Op, forms []Form, redFor func(Form) []Tuple) *builtModule {
 	m := &wb.Module{}
 	m.Mem = &wb.Limits{Min: memPages, Max: memPages, HasMax: true}
 	bm := &builtModule{idx: map[Form][]uint32{}}
@@ -174,11 +227,12 @@ func buildModule(op *rs.Op, forms []Form, red []Tuple) *builtModule {
 	var drvs []drv
 	for _, form := range forms {
 		if !form.hasConst() {
-			params, body := opFunc(op, form, Tuple{})
-			fi := m.AddFunc(params, []wb.ValType{wbType(op.Out)}, nil, body)
+			params, locals, body := opFuncL(op, form, Tuple{})
+			fi := m.AddFunc(params, []wb.ValType{wbType(op.Out)}, locals, body)
 			drvs = append(drvs, drv{form: form, direct: fi})
 			continue
 		}
+		red := redFor(form)
 		seen := map[string]uint32{}
 		idx := make([]uint32, len(red))
 		var typ uint32
@@ -186,8 +240,8 @@ func buildModule(op *rs.Op, forms []Form, red []Tuple) *builtModule {
 			k := constKey(op, form, t)
 			ti, ok := seen[k]
 			if !ok {
-				params, body := opFunc(op, form, t)
-				fi := m.AddFunc(params, []wb.ValType{wbType(op.Out)}, nil, body)
+				params, locals, body := opFuncL(op, form, t)
+				fi := m.AddFunc(params, []wb.ValType{wbType(op.Out)}, locals, body)
 				typ = m.Type(params, []wb.ValType{wbType(op.Out)})
 				ti = uint32(len(table))
 				table = append(table, fi)
@@ -212,7 +266,7 @@ func buildModule(op *rs.Op, forms []Form, red []Tuple) *builtModule {
 		a.LocalGet(2) // store address
 		for k, t := range op.In {
 			switch d.form[k] {
-			case 'P', 'B':
+			case 'P', 'B', 'T':
 				a.LocalGet(2)
 				emitLoad(a, t, inBase(k))
 			case 'M':
